@@ -17,6 +17,7 @@ import (
 	"github.com/gdamore/tcell/v2/terminfo"
 
 	"verifharness/faketty"
+	"verifharness/ptytty"
 	"verifharness/trace"
 )
 
@@ -109,7 +110,7 @@ func raceMain(args []string) error {
 	pairsel := fs.String("pairs", "", "only pairs a:b,c:d (race mode)")
 	startAt := fs.Int("start", 0, "skip the first N pairs (race mode; used to resume after a fatal runtime error)")
 	stride := fs.Int("stride", 1, "run every stride-th pair (race mode)")
-	kind := fs.String("screen", "tty", "tty (terminfo screen on a fake tty) | sim (SimulationScreen), race mode")
+	kind := fs.String("screen", "tty", "tty (terminfo screen on a fake tty) | sim (SimulationScreen) | pty (real device Tty on a pseudo-terminal), race mode")
 	fs.Parse(args)
 	encoding.Register()
 	if *charset == "UTF-8" {
@@ -131,6 +132,21 @@ func raceMain(args []string) error {
 	methods := screenMethods()
 	if *kind == "sim" {
 		methods = append(methods, simMethods()...)
+	}
+	if *kind == "pty" {
+		// the real device Tty (tty_unix.go) on a pseudo-terminal: Suspend/Resume cycles against the library's own
+		// SIGWINCH goroutine and a few drawing calls
+		if why := ptyUnavailable(); why != "" {
+			return skipRun(*out, why)
+		}
+		keep := map[string]bool{"Show": true, "Sync": true, "SetSize": true, "Size": true, "SetContent": true, "Beep": true}
+		var ms []screenMethod
+		for _, m := range methods {
+			if keep[m.name] {
+				ms = append(ms, m)
+			}
+		}
+		methods = append([]screenMethod{{"SuspendResume", func(s tcell.Screen, i int) { s.Suspend(); s.Resume() }}}, ms...)
 	}
 	ops := 0
 	if *mode == "lock" {
@@ -200,6 +216,11 @@ func raceMain(args []string) error {
 				if len(sel) > 0 && !sel[pair] {
 					continue
 				}
+				if *kind == "pty" && (a.name != "SuspendResume" || b.name == "SuspendResume") {
+					// one goroutine cycles Suspend/Resume, the other draws or asks for the size (two goroutines
+					// suspending and resuming against each other is not a use the properties speak about)
+					continue
+				}
 				pairIdx++
 				if pairIdx <= *startAt || (pairIdx+int(*seed))%*stride != 0 {
 					continue
@@ -207,7 +228,21 @@ func raceMain(args []string) error {
 				fmt.Fprintf(os.Stderr, "@@IDX %d\n", pairIdx)
 				var s tcell.Screen
 				var ftty *faketty.Tty
-				if *kind == "sim" {
+				var pty *ptytty.Pty
+				if *kind == "pty" {
+					var err error
+					if pty, err = ptytty.Open(10, 4); err != nil {
+						return err
+					}
+					dt, err := pty.Tty()
+					if err != nil {
+						return err
+					}
+					ti := *terminfo.VerifEntry("xterm-256color")
+					if s, err = tcell.NewTerminfoScreenFromTtyTerminfo(dt, &ti); err != nil {
+						return err
+					}
+				} else if *kind == "sim" {
 					ss := tcell.NewSimulationScreen(*charset)
 					if ss == nil {
 						return fmt.Errorf("no simulation screen for charset %s", *charset)
@@ -264,6 +299,12 @@ func raceMain(args []string) error {
 							return
 						default:
 						}
+						if pty != nil {
+							pty.Inject([]byte("x"))
+							pty.SetSize(10+i%3, 4, true) // raises SIGWINCH in this process
+							time.Sleep(300 * time.Microsecond)
+							continue
+						}
 						if ftty == nil { // the simulator has no tty: its input side is the test's own calls (pair methods)
 							time.Sleep(200 * time.Microsecond)
 							continue
@@ -278,6 +319,9 @@ func raceMain(args []string) error {
 				wg.Wait()
 				close(stop)
 				s.Fini()
+				if pty != nil {
+					pty.Close()
+				}
 				fmt.Fprintf(os.Stderr, "@@ENDPAIR %s\n", pair)
 				emit(trace.Ev{"ev": "Pair", "pair": pair})
 				ops++
